@@ -19,6 +19,12 @@ Transcribes, for the FIXED code (fixes/C16-*.patch applied):
   as it is now is read from `Generated.TaskSites` (`covered`), and `stop` in this model removes exactly the
   covered tasks.
 
+Round 3: the fixes C16-session-destroyed-during-login, C16-tracking-cancel-lost-in-failed-write and
+C16-disconnect-releases-stream-first are part of the modelled code; the operation alphabet has a break (write
+failure, close by another task, `stop()`, server-side EOF) at every suspension point of `login()` — before the
+reply and at every awaited write of the burst — (`Op.loginBreak`), losses during which a listener of the
+application stays suspended (`Op.lossHeld`, `Op.release`) and a reconnect by the application (`Op.connect`).
+
 Time is counted in ticks of 0.5 s (the watchdog's poll interval, network.py:201-206); user / environment
 operations happen just after a tick boundary, timers fire just before one.
 -/
@@ -363,6 +369,8 @@ structure State where
   pp : List Nat := []              -- potential-parent connect tasks: ticks left
   sr : List Nat := []              -- search-reply tasks connecting to the asker: ticks left
   orphans : List Nat := []         -- race children whose creator was cancelled without ending them: ticks left
+  held : Nat := 0                  -- listeners of the application suspended inside a CLOSED / SessionDestroyed event
+  heldReaders : Nat := 0           -- reader tasks of a closed stream that are suspended inside such a listener
   -- server-derived state
   users : Bool := false            -- some user object / privileged user is stored
   rooms : Bool := false
@@ -387,11 +395,20 @@ inductive Obs
   | invalid                        -- the operation is not applicable here (never generated)
   deriving DecidableEq, Repr
 
+/-- What happens to a `login()` in progress (at one of its suspension points). -/
+inductive Break
+  | writeFail                      -- the write hits a reset connection: `_send` → `disconnect(WRITE_ERROR)`
+  | close (r : Reason)             -- another task closes the connection: `disconnect_server()` / `disconnect(r)`
+  | stop                           -- another task calls `client.stop()`
+  | srvEof                         -- the server closes its end; the writes still succeed, the reader finds the EOF
+  deriving DecidableEq, Repr
+
 inductive Op
   | start
   | login
-  | loginCut (j delivered : Nat) (residual : List String) (usersLeft : Bool)
-                                   -- accepted login; the (j+1)-th burst write fails (connection reset)
+  | loginBreak (pos : Option Nat) (delivered : Nat) (b : Break)
+                                   -- login() during which `b` happens: before the reply (`none`) or at the
+                                   -- (j+1)-th awaited write of the burst (`some j`)
   | exec
   | populate                       -- the server sends room list, users, distributed parameters
   | search
@@ -399,6 +416,10 @@ inductive Op
   | potentialParents               -- the server sends PotentialParents with one unreachable entry
   | searchRequest                  -- the server relays a search of an unreachable user that matches a shared file
   | loss (r : Reason)
+  | lossHeld (r : Reason)          -- a loss during which a listener of the application (CLOSED / SessionDestroyed)
+                                   -- suspends: `DataConnection.disconnect` does not return before `release`
+  | release                        -- the suspended listeners of the application return
+  | connect                        -- the application calls `network.connect_server()` on the closed connection
   | tick
   | setSrvUp (b : Bool)
   | setSrvReply (r : Reply)
@@ -458,30 +479,6 @@ def doLogin (c : Config) (st : State) : State × List Obs :=
   | .eof =>
       let r := closeServer .eof st
       (r.1, [.loginSent] ++ r.2 ++ [.loginResult .error])
-
-/-- Accepted login during which the (j+1)-th burst write hits a reset connection.  The session is initialised and
-    destroyed again inside `login()`, which still returns normally.  KNOWN FINDING: listeners that run after the
-    failure act on the destroyed session, and a tracking task whose own AddUser write failed outlives the reset —
-    which tracking entries (`residual`) and whether a user object (`usersLeft`) remain depends on how the listener
-    coroutines and the tracking tasks interleave; the model takes them from the environment.  How many of the `j`
-    frames written before the reset still reach the server is up to the network (`delivered ≤ j`). -/
-def doLoginCut (c : Config) (j delivered : Nat) (residual : List String) (usersLeft : Bool) (st : State) :
-    State × List Obs :=
-  let b := burst c (envOf c st)
-  if j ≥ b.length then doLogin c { st with srvReply := .accepted }
-  else
-    let st1 := { st with session := true, users := true }
-    let r := closeServer .writeError st1
-    ({ r.1 with tracked := residual, users := usersLeft },
-     [.loginSent, .sessionInit, .frames (b.take (min j delivered))] ++ r.2 ++ [.loginResult .ok])
-
-/-- a residual observed on the real code for two friends (replayed on every run as the known-finding witness) -/
-def typicalResidual (c : Config) (j : Nat) : List String :=
-  if j < 4 then trackSet c
-  else if j < 6 then []
-  else match (trackSet c)[j - 6]? with
-    | some u => [u]
-    | none => []
 
 def agePP (l : List Nat) : List Nat := (l.filter (fun n => n > 1)).map (fun n => n - 1)
 
@@ -555,14 +552,73 @@ def doStop (c : Config) (st : State) : State × List Obs :=
                            (if covered .searchReply then st1.sr else []) else []) },
    r.2)
 
+/-- the event that interrupts a `login()` in progress -/
+def applyBreak (c : Config) (b : Break) (st : State) : State × List Obs :=
+  match b with
+  | .writeFail => closeServer .writeError st
+  | .close r => closeServer r st
+  | .stop => doStop c st
+  | .srvEof => closeServer .eof st
+
+/-- client.py `login()` on a connected server connection without a session, interrupted by `b`.
+
+    * `pos = none`: the Login request has been written (or, for `writeFail`, its write fails) and no reply has
+      arrived: `login()` raises.
+    * `pos = some j`, `j < |burst|`: the reply was accepted, the session exists, the listeners of
+      `SessionInitializedEvent` are running and the (j+1)-th awaited write of the burst is suspended (for
+      `writeFail`: fails).  The connection closes, the session is destroyed at once (client.py
+      `_on_connection_state_changed`), the CLOSED listeners reset users / rooms / tracking.  The remaining writes
+      of the burst are dropped by the closed connection (connection.py `send_message`), the user manager's
+      listener does not track anybody on a closed connection, a tracking task whose own write failed ends with the
+      reset (user/manager.py, fixes C16-session-destroyed-during-login / C16-tracking-cancel-lost-in-failed-write),
+      `login()` does not start a reader for a destroyed session and returns normally.  How many of the frames
+      written before the break reach the server is up to the network (`delivered`).
+    * `srvEof` inside the burst: the writes still succeed, `login()` completes, the reader it starts finds the EOF.
+    * `j ≥ |burst|`: there is no such position: `login()` completes and the event follows it. -/
+def doLoginBreak (c : Config) (pos : Option Nat) (delivered : Nat) (b : Break) (st : State) : State × List Obs :=
+  match pos with
+  | none =>
+      let r := applyBreak c b st
+      (r.1, (if b = .writeFail then [] else [.loginSent]) ++ r.2 ++ [.loginResult .error])
+  | some j =>
+      let bs := burst c (envOf c st)
+      let full := doLogin c { st with srvReply := .accepted }
+      let done : State := { full.1 with srvReply := st.srvReply }
+      if j ≥ bs.length then
+        match b with
+        | .writeFail => (done, full.2)
+        | _ => ((applyBreak c b done).1, full.2 ++ (applyBreak c b done).2)
+      else
+        match b with
+        | .srvEof => ((closeServer .eof done).1, full.2 ++ (closeServer .eof done).2)
+        | _ =>
+            let r := applyBreak c b { st with session := true, users := true }
+            (r.1, [.loginSent, .sessionInit, .frames (bs.take (min (j + 1) delivered))] ++ r.2 ++ [.loginResult .ok])
+
+/-- network.py `connect_server()` called by the application on a closed connection (the reconnect watchdog, if it
+    runs, is polling and not in its reconnect delay).  CONNECTED starts the ping job and, with `reconnect.auto`,
+    the watchdog (network.py `_on_server_connection_state_changed`); a refused connect ends CLOSED(CONNECT_FAILED)
+    and raises. -/
+def doConnect (c : Config) (st : State) : State × List Obs :=
+  if st.srvUp then
+    ({ st with conn := .connected, ping := true, wd := if c.reconnectAuto then .idle else st.wd },
+     [.attempt, .connected])
+  else
+    let r := closeServer .connectFailed { st with conn := .connecting }
+    (r.1, [.attempt] ++ r.2 ++ [.startFailed])
+
+def Wd.isSleeping : Wd → Bool
+  | .sleeping _ => true
+  | _ => false
+
 def step (c : Config) (st : State) : Op → State × List Obs
   | .start => if st.started ∨ st.conn ≠ .uninit then (st, [.invalid]) else doStart c st
   | .login =>
       if st.conn = .connected ∧ st.session = false ∧ st.reader = false ∧ st.stopped = false then doLogin c st
       else (st, [.invalid])
-  | .loginCut j d res ul =>
+  | .loginBreak pos d b =>
       if st.conn = .connected ∧ st.session = false ∧ st.reader = false ∧ st.stopped = false then
-        doLoginCut c j d res ul st
+        doLoginBreak c pos d b st
       else (st, [.invalid])
   | .exec => if st.session then (st, [.sent]) else (st, [.refused])
   | .populate =>
@@ -587,6 +643,21 @@ def step (c : Config) (st : State) : Op → State × List Obs
   | .loss r =>
       if st.conn = .connected ∧ r ≠ .connectFailed ∧ ((r = .eof ∨ r = .readError) → st.reader = true) then
         closeServer r st
+      else (st, [.invalid])
+  | .lossHeld r =>
+      -- the disconnect runs in the reader task when the reader notices the loss (EOF, read error): that task stays
+      -- suspended in the listener; every other reason is noticed by the task of the caller
+      if st.conn = .connected ∧ r ≠ .connectFailed ∧ ((r = .eof ∨ r = .readError) → st.reader = true) then
+        let x := closeServer r st
+        ({ x.1 with held := x.1.held + 1
+                    heldReaders := x.1.heldReaders + (if r = .eof ∨ r = .readError then 1 else 0) }, x.2)
+      else (st, [.invalid])
+  | .release =>
+      -- the listeners return: `disconnect` has nothing left to do (the stream was released before CLOSED was
+      -- reported), a reader loop of a released stream ends (connection.py, fix C16-disconnect-releases-stream-first)
+      if st.held ≠ 0 then ({ st with held := 0, heldReaders := 0 }, []) else (st, [.invalid])
+  | .connect =>
+      if st.started ∧ st.stopped = false ∧ st.conn = .closed ∧ st.wd.isSleeping = false then doConnect c st
       else (st, [.invalid])
   | .tick => tickWd c (ageAll st)
   | .setSrvUp b => ({ st with srvUp := b }, [])
@@ -619,7 +690,9 @@ def alive (c : Config) (st : State) : List Site :=
   (if st.scan then [.sharesScan] else []) ++ (if st.wishlist then [.wishlist] else []) ++
   st.tracked.map (fun _ => .tracking) ++ List.replicate st.searchTimers .searchTimer ++
   List.replicate st.wishlistTimers .wishlistTimer ++ st.pp.map (fun _ => .potentialParent) ++
-  st.sr.map (fun _ => .searchReply) ++ raceChildren c (st.pp ++ st.sr ++ st.orphans)
+  st.sr.map (fun _ => .searchReply) ++ raceChildren c (st.pp ++ st.sr ++ st.orphans) ++
+  -- not the library's to end: they are suspended in code of the application
+  List.replicate st.heldReaders .reader
 
 /-- open sockets of the library: the server connection and the listening ports -/
 def openSockets (st : State) : Nat := (if st.conn = .connected then 1 else 0) + st.listening
